@@ -382,9 +382,53 @@ func mutateObjModel(t *rapid.T, o *omodel) *omodel {
 	return c
 }
 
+// genConcatFamily: concatenation values as the interpreter produces them. A
+// result of 256 bytes or more is an SuConcat; extending it with a further $
+// appends in place, so s and t = s $ x share one buffer with different
+// lengths, while a second extension u = s $ y of the same base is copied.
+// Each model renders either as that very value or as an independent
+// SuStr / SuConcat / SuExcept of the same bytes.
+func genConcatFamily(t *rapid.T) []smodel {
+	a := strings.Repeat(rapid.StringMatching(`[a-c]{1,3}`).Draw(t, "unit"), 210)[:150+gen.Uniform(t, "alen", 60)]
+	b := strings.Repeat(rapid.StringMatching(`[a-c]{1,2}`).Draw(t, "unit2"), 170)[:110+gen.Uniform(t, "blen", 60)]
+	ext := func(label string) core.Value {
+		return core.SuStr(gen.Pick(t, label, []string{"a", "b", "c", "ab", "\x00", ""}))
+	}
+	sv := core.OpCat(core.SuStr(a), core.SuStr(b)) // >= 256 bytes: SuConcat
+	vals := []core.Value{sv}
+	tv := core.OpCat(sv, ext("x")) // in place: shares sv's buffer
+	vals = append(vals, tv)
+	vals = append(vals, core.OpCat(sv, ext("y"))) // buffer already extended: copy
+	if gen.Chance(t, "deeper", 50) {
+		vals = append(vals, core.OpCat(tv, ext("z"))) // extends t in place again
+	}
+	if gen.Chance(t, "catn", 30) { // a function level `$` chain through the interpreter
+		v, perr, _ := newCaller().call("function(s, x){ t = s $ x; return t $ x }", sv, ext("w"))
+		if perr == nil {
+			vals = append(vals, v)
+		}
+	}
+	var fam []smodel
+	for _, v := range vals {
+		v := v
+		str := core.ToStr(v)
+		repr := fmt.Sprintf("%T(shared)", v)
+		if _, ok := v.(core.SuConcat); !ok {
+			repr = fmt.Sprintf("%T", v)
+		}
+		fam = append(fam, smodel{gen.KStr, "S" + str, func(t *rapid.T) gen.MV {
+			if gen.Chance(t, "shared", 60) {
+				return gen.MV{Kind: gen.KStr, S: str, V: v, Repr: repr}
+			}
+			return strAs(t, str)
+		}})
+	}
+	return fam
+}
+
 // genPool returns models (as emodel) for one case.
 func genPool(t *rapid.T) ([]emodel, string) {
-	theme := gen.Pick(t, "theme", []string{"numbers", "strings", "dates", "objects", "objects", "mixed", "mixed"})
+	theme := gen.Pick(t, "theme", []string{"numbers", "strings", "dates", "objects", "objects", "mixed", "mixed", "concat_family"})
 	var ms []emodel
 	addS := func(f []smodel) {
 		for i := range f {
@@ -398,6 +442,21 @@ func genPool(t *rapid.T) ([]emodel, string) {
 		addS(genStrFamily(t))
 	case "dates":
 		addS(genDateFamily(t))
+	case "concat_family":
+		fam := genConcatFamily(t)
+		switch gen.Uniform(t, "wrap", 4) {
+		case 0: // as first list member of a container
+			for i := range fam {
+				ms = append(ms, emodel{o: &omodel{list: []emodel{{s: &fam[i]}}}})
+			}
+		case 1: // as a named value
+			k := smStr("k")
+			for i := range fam {
+				ms = append(ms, emodel{o: &omodel{names: []emodel{{s: &k}}, vals: []emodel{{s: &fam[i]}}}})
+			}
+		default:
+			addS(fam)
+		}
 	case "objects":
 		o := genObjModel(t, 1)
 		ms = append(ms, emodel{o: o}, emodel{o: o})
@@ -621,7 +680,15 @@ func TestC28(t *testing.T) {
 		}
 		// the key
 		var km emodel
-		switch gen.Uniform(t, "kcls", 5) {
+		switch gen.Uniform(t, "kcls", 6) {
+		case 5: // a concatenation value (or a container holding one) as key
+			fam := genConcatFamily(t)
+			m := pick(t, fam, "cf")
+			km = emodel{s: &m}
+			if gen.Chance(t, "inobj", 40) {
+				km = emodel{o: &omodel{list: []emodel{{s: &m}}}}
+			}
+			rec.Label("lookup_concat_family_key")
 		case 0:
 			km = emodel{o: genObjModel(t, 1)}
 		case 1:
